@@ -20,7 +20,15 @@ git -C $ALT/repo checkout -- . ; git -C $ALT/repo clean -fdq
 if [ "$sd" != "-" ]; then
   git -C $ALT/repo apply "$(cd "$sd" && pwd)/patch.diff" || { echo "patch does not apply"; exit 3; }
 fi
-rsync -a --delete --exclude '/harness/target*' --exclude /work --exclude /replays --exclude /.git --exclude /evidence --exclude /seeded "$V"/ $ALT/verif/
+if [ "${ALT_FROM_HEAD:-0}" = "1" ]; then
+  # committed state of /verif only (other people's uncommitted work-in-progress must not leak into a measurement)
+  mkdir -p $ALT/verif $ALT/head
+  rm -rf $ALT/head/*; git -C "$V" archive HEAD | tar -x -C $ALT/head
+  rsync -a --delete --checksum --exclude '/harness/target*' --exclude /work --exclude /replays --exclude /evidence --exclude /seeded --exclude '/lean/.lake' $ALT/head/ $ALT/verif/
+  [ -d $ALT/verif/lean/.lake ] || cp -r "$V"/lean/.lake $ALT/verif/lean/.lake
+else
+  rsync -a --delete --exclude '/harness/target*' --exclude /work --exclude /replays --exclude /.git --exclude /evidence --exclude /seeded "$V"/ $ALT/verif/
+fi
 mkdir -p $ALT/verif/evidence
 sed -i "s#\"/repo/#\"$ALT/repo/#" $ALT/verif/harness/Cargo.toml
 cp $ALT/repo/Cargo.lock $ALT/verif/harness/Cargo.lock 2>/dev/null
